@@ -67,7 +67,7 @@ Fixpoint find_input (vin : list txin) (txid : bytes) (i : Z) : option (Z * Z) :=
               then Some (i, op_n (ti_prevout x)) else find_input r txid (i + 1)
   end.
 
-Definition select_input (spend : tx) (funding_txid : bytes) (select : Z) : option (Z * Z) :=
+Definition select_input_raw (spend : tx) (funding_txid : bytes) (select : Z) : option (Z * Z) :=
   if 0 <=? select then
     match nth_error (tx_vin spend) (Z.to_nat select) with
     | None => None                                  (* index out of bounds *)
@@ -75,3 +75,10 @@ Definition select_input (spend : tx) (funding_txid : bytes) (select : Z) : optio
                 then Some (select, op_n (ti_prevout x)) else None
     end
   else find_input (tx_vin spend) funding_txid 0.
+
+(* ... and the referenced output must exist in the funding transaction *)
+Definition select_input (spend funding : tx) (funding_txid : bytes) (select : Z) : option (Z * Z) :=
+  match select_input_raw spend funding_txid select with
+  | Some (i, n) => if (0 <=? n) && (n <? Z.of_nat (length (tx_vout funding))) then Some (i, n) else None
+  | None => None
+  end.
